@@ -187,7 +187,15 @@ func (m *Map) Peek(key interface{}) (interface{}, bool) {
 var wgSeq map[int]int
 
 // ResetIDs must be called at the start of every execution.
-func ResetIDs() { wgSeq = map[int]int{} }
+func ResetIDs() {
+	wgSeq = map[int]int{}
+	// package-level pools of the code under test start every execution empty, as in a fresh process
+	for _, p := range pools {
+		p.items = nil
+	}
+}
+
+var pools []*Pool
 
 type WaitGroup struct {
 	n  int
@@ -311,4 +319,44 @@ func (o *Once) Do(f func()) {
 	o.state = 1
 	defer func() { o.state = 2 }()
 	f()
+}
+
+// ---- Pool ----
+
+// Pool hands back the most recently Put item (the choice of sync.Pool that maximises reuse, hence
+// aliasing between callers); Get and Put are scheduling points.
+type Pool struct {
+	New   func() interface{}
+	items []interface{}
+	known bool
+}
+
+func (p *Pool) register() {
+	if !p.known {
+		p.known = true
+		pools = append(pools, p)
+	}
+}
+
+func (p *Pool) Get() interface{} {
+	p.register()
+	point("Pool.Get")
+	if n := len(p.items); n > 0 {
+		x := p.items[n-1]
+		p.items = p.items[:n-1]
+		return x
+	}
+	if p.New != nil {
+		return p.New()
+	}
+	return nil
+}
+
+func (p *Pool) Put(x interface{}) {
+	p.register()
+	point("Pool.Put")
+	if x == nil {
+		return
+	}
+	p.items = append(p.items, x)
 }
